@@ -109,6 +109,30 @@ CHECKS['C04'] = dict(
    technique="TLA+ machine = contract (TLC) + spec->code replay at every text position / template",
    ref="5/C04")
 
+CHECKS['C18'] = dict(
+   text="Strings.tla enumerates every string up to the bound over a 26-symbol markup alphabet and a 26-symbol stylesheet alphabet "
+        "(every as-you-type prefix is a state) and simulates longer strings over structural alphabets; the real markup tokenizer and "
+        "the real stylesheet tokenizer in property and in value mode are run on each string, and every token list (type, start, end) "
+        "or raised error is validated as a trace by Trace_Tiling.tla, whose single state variable is the position up to which the "
+        "input is covered: token k must start exactly there, be non-empty, stay inside the input, the last one must end at the end; an "
+        "error must be the scanner error with a position inside the input.",
+   note="The specification here is the acceptance machine of the property plus the exhaustive input generator; the tokenizers "
+        "themselves are observed, not re-modelled. Bounded (length 3 quick / 4 thorough exhaustively, 10-14 simulated).",
+   technique="TLA+ input enumeration (TLC) + code->spec trace validation of every token list",
+   ref="5/C18")
+CHECKS['C07'] = dict(
+   text="Strings.tla enumerates every string up to the bound over the markup and stylesheet alphabets and simulates longer structural "
+        "strings; these, plus one-character deletions/duplications/replacements/insertions of every abbreviation literal harvested "
+        "from the repository's tests, are expanded by the real expand() under 10 markup configurations (html, jsx, pug, xsl+comments, "
+        "BEM, wrap text as list and string, context+BEM, slim+maxRepeat, vue with formatting options) resp. 8 stylesheet "
+        "configurations (css, scss, stylus, value context, section and property scope, JSON, skipUnmatched off). Every outcome "
+        "(class, reported position) is validated by Trace_Outcome.tla: a string, or one of the two parse errors with a position "
+        "that is absent or inside the input; everything else, a timeout included, rejects.",
+   note="The specification is the acceptance machine plus the exhaustive input generator. Repeat counts of three or more digits run "
+        "under a repeat budget; lorem output is random, only the outcome class is observed.",
+   technique="TLA+ input enumeration (TLC) + code->spec trace validation of every outcome",
+   ref="5/C07")
+
 NOT_YET = {}
 
 def main():
